@@ -1276,20 +1276,34 @@ public:
     CRAB_LOG("backward-tr", crab::outs() << "\tPRE=" << m_pre << "\n");
   }
 
-  // NOT IMPLEMENTED
-  virtual void exec(region_init_t &stmt) override {}
-  virtual void exec(region_copy_t &stmt) override {}
-  virtual void exec(region_cast_t &stmt) override {}  
-  virtual void exec(make_ref_t &stmt) override {}
-  virtual void exec(remove_ref_t &stmt) override {}  
-  virtual void exec(load_from_ref_t &stmt) override {}
-  virtual void exec(store_to_ref_t &stmt) override {}
-  virtual void exec(gep_ref_t &stmt) override {}
+  // The abstract domain API has no backward operations for regions
+  // and references. We use a sound default: whatever the statement
+  // defines is unconstrained in the precondition (like havoc), and a
+  // failed reference assertion can be reached from any state that
+  // the forward analysis allows at that point.
+  virtual void exec(region_init_t &stmt) override { m_pre -= stmt.region(); }
+  virtual void exec(region_copy_t &stmt) override {
+    m_pre -= stmt.lhs_region();
+  }
+  virtual void exec(region_cast_t &stmt) override { m_pre -= stmt.dst(); }
+  virtual void exec(make_ref_t &stmt) override { m_pre -= stmt.lhs(); }
+  virtual void exec(remove_ref_t &stmt) override {}
+  virtual void exec(load_from_ref_t &stmt) override { m_pre -= stmt.lhs(); }
+  virtual void exec(store_to_ref_t &stmt) override { m_pre -= stmt.region(); }
+  virtual void exec(gep_ref_t &stmt) override { m_pre -= stmt.lhs(); }
+  // ignoring an assumption only enlarges the precondition
   virtual void exec(assume_ref_t &stmt) override {}
-  virtual void exec(assert_ref_t &stmt) override {}
-  virtual void exec(select_ref_t &stmt) override {}
-  virtual void exec(int_to_ref_t &stmt) override {}
-  virtual void exec(ref_to_int_t &stmt) override {}
+  virtual void exec(assert_ref_t &stmt) override {
+    if (!m_ignore_assert && !m_good_states) {
+      m_pre |= get_forward_invariant(&stmt);
+    }
+  }
+  virtual void exec(select_ref_t &stmt) override {
+    m_pre -= stmt.lhs_ref();
+    m_pre -= stmt.lhs_rgn();
+  }
+  virtual void exec(int_to_ref_t &stmt) override { m_pre -= stmt.ref_var(); }
+  virtual void exec(ref_to_int_t &stmt) override { m_pre -= stmt.int_var(); }
 
   /// -- Call and return can be redefined by derived classes
 
